@@ -144,6 +144,20 @@ PROPS = {
             "debug assertions are on in the build under test (the harness's dev profile sets debug-assertions = true, also for the shred dependency)",
         ],
     },
+    "C17": {
+        "statement": "Meta.C17_inv (MetaInv after every register history) + C17_tys_first_registration + C17_get_spec / C17_get_some_iff / C17_bad_cast_panics_get + C17_next_spec / C17_next_conflict_panics / C17_bad_cast_panics_next + C17_iter_spec / C17_iter_once_each (stable, non-nightly meta.rs)",
+        "engines": [{"engine": "meta", "args": {},
+                     "quick": {"cases": 4000},
+                     "thorough": {"cases": 50000, "small-scope": True, "long": True},
+                     "search": {"cases": 60000, "small-scope": True}}],
+        "aspects": ["*"],
+        "assumptions": [
+            CELL,
+            "a vtable is identified with the concrete type it was built for; attach_vtable's pointer cast is modelled as `type tag of the stored function = type tag of the value => the cast is right` (unsafe pointer work itself is not verified; no Miri in this environment)",
+            "`present` = present under dynamic id 0, the only key the iterators look up; only the stable (non-`nightly`) variant of meta.rs is modelled and exercised",
+            "user code: <T as CastFrom<R>>::cast returns a pointer whose vtable is R's (forced by its signature in safe code); its address is arbitrary (universally quantified in the theorems)",
+        ],
+    },
 }
 
 
